@@ -464,11 +464,71 @@ func runConn(c fcase, rng *rand.Rand) map[string]any {
 		}
 	}
 	cn.Close()
+	// write side: the underlying stream accepts at most k bytes per Write call; what it receives must be exactly what was written
+	writeOK := true
+	for _, k := range []int{1, 3, 64} {
+		pw := &partialWriter{max: k}
+		wc := rwc.NewConn(context.Background(), pw, nil, nil, 4)
+		var want []byte
+		for _, s := range c.Writes {
+			b := fill(sizeOf(s), rng)
+			if len(b) > 5000 {
+				b = b[:5000]
+			}
+			want = append(want, b...)
+			n, err := wc.Write(b)
+			if err != nil || n != len(b) {
+				writeOK = false
+			}
+		}
+		pw.mu.Lock()
+		if !bytes.Equal(pw.got, want) {
+			writeOK = false
+		}
+		pw.mu.Unlock()
+		wc.Close()
+	}
 	complete := pos == len(wire) || (prevShort && pos+2048 >= len(wire)) || shorts > 0
 	if shorts == 0 && pos != len(wire) {
 		lossless = false
 	}
-	return map[string]any{"lossless": lossless && !silent, "shorts": shorts, "end": endErr, "complete": complete, "pos": pos, "len": len(wire)}
+	return map[string]any{"write_ok": writeOK, "lossless": lossless && !silent, "shorts": shorts, "end": endErr, "complete": complete, "pos": pos, "len": len(wire)}
+}
+
+// partialWriter accepts at most max bytes per Write call (a short write without error, as a stream under back-pressure may do);
+// reads block until closed.
+type partialWriter struct {
+	mu     sync.Mutex
+	got    []byte
+	max    int
+	closed chan struct{}
+	once   sync.Once
+}
+
+func (p *partialWriter) Write(b []byte) (int, error) {
+	n := len(b)
+	if n > p.max {
+		n = p.max
+	}
+	p.mu.Lock()
+	p.got = append(p.got, b[:n]...)
+	p.mu.Unlock()
+	return n, nil
+}
+func (p *partialWriter) init() { p.once.Do(func() { p.closed = make(chan struct{}) }) }
+func (p *partialWriter) Read(b []byte) (int, error) {
+	p.init()
+	<-p.closed
+	return 0, io.EOF
+}
+func (p *partialWriter) Close() error {
+	p.init()
+	select {
+	case <-p.closed:
+	default:
+		close(p.closed)
+	}
+	return nil
 }
 
 // yieldStream records every Write and yields the processor after it, so that a frame written with more than one Write
@@ -668,7 +728,44 @@ func main() {
 		o["panic"] = pan
 		out.Emit(o)
 	}
+	// dispatch per remote peer: streams with the same protocol id arriving from two different remote peers right after each other
+	// are each handed to the handler that was looked up for their own peer
+	tpRounds, tpBad := 0, 0
+	if hw != nil {
+		lnk2 := fakes.NewLink("l2", 10, 77, hw.lnk.Local, vio.PeerID("framing/remote2"))
+		for r := 0; r < 12; r++ {
+			hdr, pid := hdrBytes(8+r, "none", rng)
+			for k, lk := range []*fakes.Link{hw.lnk, lnk2} {
+				if r%2 == 1 {
+					lk = []*fakes.Link{lnk2, hw.lnk}[k]
+				}
+				sc := newScripted(append(append([]byte{}, hdr...), 'x'), "all", len(hdr), rng)
+				hw.cur = sc
+				hw.h.mu.Lock()
+				hw.h.got = nil
+				hw.h.mu.Unlock()
+				done := make(chan struct{})
+				go func() {
+					hw.ctrl.HandleIncomingStream(hw.ctx, hw.ft, lk, sc, struct{}{})
+					close(done)
+				}()
+				select {
+				case <-done:
+				case <-time.After(20 * time.Second):
+					vio.Fatal("two-peer dispatch: HandleIncomingStream hangs")
+				}
+				hw.h.mu.Lock()
+				got := append([]dispatch{}, hw.h.got...)
+				hw.h.mu.Unlock()
+				tpRounds++
+				if len(got) != 1 || got[0].pid != pid || got[0].remote != string(lk.Remote) || got[0].msPeer != string(lk.Remote) {
+					tpBad++
+				}
+			}
+		}
+	}
 	cw := runConcurrentWriters(rng)
+	cw["two_peer_streams"], cw["two_peer_bad"] = tpRounds, tpBad
 	af := runAtomicFrames(rng)
 	cw["frames"] = cw["frames"].(int) + af["frames"].(int)
 	cw["bad"] = cw["bad"].(int) + af["bad"].(int)
